@@ -33,5 +33,7 @@ mod h_clone;
 mod h_set;
 #[cfg(all(kani, not(feature = "counters")))]
 mod h_eq;
+#[cfg(all(kani, feature = "serde", not(feature = "counters")))]
+mod h_serde;
 #[cfg(all(kani, feature = "counters"))]
 mod h_cnt;
